@@ -70,6 +70,8 @@ pub struct Case {
     pub dchunk: Vec<(String, i64)>,
     /// extra environment variables of the process (the output must not depend on them)
     pub env: Vec<(String, String)>,
+    /// file name of the planned file inside its per-run directory ("" = cases.txt)
+    pub file_name: String,
     pub note: String,
 }
 
@@ -81,6 +83,7 @@ impl Case {
             "path": self.path, "file_hex": hex(&self.file), "file_text": String::from_utf8_lossy(&self.file[..self.file.len().min(200)]),
             "file_mode": match self.file_mode { FileMode::Memfd => "memfd", FileMode::Absent => "absent", FileMode::RealDir => "realdir", FileMode::RealFs => "realfs", FileMode::None => "none" },
             "env": self.env.iter().map(|(k, v)| json!([k, v])).collect::<Vec<_>>(),
+            "file_name": self.file_name,
             "tty": self.tty, "tty_out": self.tty_out, "seed": self.seed.to_string(),
             "events": self.events.iter().map(|(c, k, a)| json!([c, k, a])).collect::<Vec<_>>(),
             "dchunk": self.dchunk.iter().map(|(c, n)| json!([c, n])).collect::<Vec<_>>(),
@@ -138,6 +141,7 @@ impl Case {
                         .collect()
                 })
                 .unwrap_or_default(),
+            file_name: v.get("file_name").and_then(|x| x.as_str()).unwrap_or("").to_string(),
             note: v.get("note").and_then(|x| x.as_str()).unwrap_or("").to_string(),
         })
     }
@@ -220,7 +224,7 @@ pub const PLANNED_PATH: &str = "/nonexistent-simenv/inputs/cases.txt";
 /// Puts the planned file system object in place and returns the case with the real path substituted.
 pub fn materialise(case: &Case, bins: &Binaries, slot: usize) -> Result<Case, String> {
     let dir = format!("{}/w{:02}", bins.scratch, slot);
-    let real = format!("{}/cases.txt", dir);
+    let real = format!("{}/{}", dir, if case.file_name.is_empty() { "cases.txt" } else { case.file_name.as_str() });
     let _ = std::fs::remove_dir_all(&dir);
     std::fs::create_dir_all(&dir).map_err(|e| format!("{}: {}", dir, e))?;
     let mut c = case.clone();
